@@ -774,7 +774,7 @@ func (d *driver) filterThenBind(name string) {
 func (d *driver) rollout() {
 	var names []string
 	for _, s := range d.sc.Specs {
-		if s.Kind != "dp" {
+		if _, alt := d.sc.AltRanges[s.Name]; s.Kind != "dp" && !alt {
 			continue
 		}
 		pv, err := d.w.CreatePod(s)
